@@ -260,15 +260,27 @@ fn check_unobservable(base: &Scen) -> Report {
                             if chk.rep.findings.iter().any(|f| f.reproduced == Some(true)) {
                                 break;
                             }
-                            if let Verdict::Cex(_) = chk.must_unsat("fast=general", &format!("path {pi} element {i}"), &q, &[]) {
-                                let nv = entry::native_vals(base, 5);
+                            if let Verdict::Cex(vals) = chk.must_unsat("fast=general", &format!("path {pi} element {i}"), &q, &all_vars) {
+                                // native replay: the solver's model first (IEEE-refined when the abstraction admitted it: e.g. +0.0 next
+                                // to -0.0, the only distinct values that compare equal), then generic values
+                                let m = crate::c05::model_f64(&vals);
                                 let s2 = if alt % 3 == 1 { &dynq } else { &two };
                                 let ep = if group == 0 { Ep::Array } else { Ep::ArrayInto };
-                                let (x, y) = (entry::native_run(base, &nv, &ep, None, None), entry::native_run(s2, &nv, &ep, None, None));
-                                let differs = match (&x, &y) {
-                                    (Ok(x), Ok(y)) => x.values.iter().zip(&y.values).any(|(p, q)| p.to_bits() != q.to_bits()),
-                                    _ => true,
-                                };
+                                let mut shown = (Err("not run".to_string()), Err("not run".to_string()));
+                                let mut differs = false;
+                                for nv in [crate::c09::native_from_sym(&v, &m, 5), entry::native_vals(base, 5)] {
+                                    let (x, y) = (entry::native_run(base, &nv, &ep, None, None), entry::native_run(s2, &nv, &ep, None, None));
+                                    differs = match (&x, &y) {
+                                        (Ok(x), Ok(y)) => x.values.iter().zip(&y.values).any(|(p, q)| p.to_bits() != q.to_bits() && !(p.is_nan() && q.is_nan())),
+                                        (Err(a), Err(b)) => a != b,
+                                        _ => true,
+                                    };
+                                    shown = (x, y);
+                                    if differs {
+                                        break;
+                                    }
+                                }
+                                let (x, y) = shown;
                                 chk.finding(&format!("C19:fast-path-observable:{}", base.kind.name()), &format!("{}: fast path and general path return different values (element {i})", base.name()), Json::obj().with("config", base.name()).with("native_fast", format!("{x:?}")).with("native_general", format!("{y:?}")), Some(differs));
                             }
                         }
